@@ -262,6 +262,16 @@ def ep_forced(r, s):
         s.TP(r.choice([0, 1, 1000, s.period()]))
 
 
+def ep_busy(r, s):
+    """a busy bus: 20 or more frames of other stations wait at every poll (ParseMessages reads at most 20 of them per call); the heartbeat
+    schedule must not suffer (seed C12-14)"""
+    for _ in range(r.randint(3, 8)):
+        s.T(r.choice([s.period() // 3, s.period() // 2, s.period() - 1, s.period() + 1, 1000]))
+        for _k in range(r.choice([19, 20, 21, 25, 40])):
+            s.ops.append('R %x 8 %s' % (r.choice([0x09f11232, 0x0df80533, 0x15fd0734]), bytes(r.randrange(256) for _ in range(8)).hex()))
+        s.P()
+
+
 def ep_mixed(r, s):
     """devices with different values, then the setter for all devices with "keep": every device keeps its own"""
     if s.ndev < 2:
@@ -303,6 +313,8 @@ def scenario(r, ndev=None, mode=None, cold=None, t0=None, n_eps=None, huge=False
             ep_mixed(r, s)
         elif x < 0.41:
             ep_forced(r, s)
+        elif x < 0.45:
+            ep_busy(r, s)
         elif x < 0.52:
             ep_polls(r, s)
         elif x < 0.70:
@@ -385,7 +397,15 @@ def _judge(cfg, ops, per_op, sync0, sent_later):
     t = t0
     sync = None
     # scope of the schedule rules: clock, polls, setter, claim restarts, and the application's own heartbeat calls (SendHeartbeat)
-    full = all((not o) or o[0] in ('T', 'P', 'H', 'C') or (o[0] == 'Q' and len(o) >= 3 and o[1] in ('hb', 'hd')) for o in ops)
+    def bystander(o):
+        # a received frame that is no business of the library's own handlers (not an ISO request / claim / TP / commanded address / group function)
+        if o[0] != 'R' or len(o) < 4:
+            return False
+        cid = int(o[1], 16)
+        pf = (cid >> 16) & 0xff
+        pgn = (cid >> 8) & 0x3ff00 if pf < 240 else (cid >> 8) & 0x3ffff
+        return pgn not in (59392, 59904, 60928, 60160, 60416, 65240, 126208)
+    full = all((not o) or o[0] in ('T', 'P', 'H', 'C') or (o[0] == 'Q' and len(o) >= 3 and o[1] in ('hb', 'hd')) or bystander(o) for o in ops)
     last_poll = None
 
     def do_open(ts):
@@ -507,6 +527,8 @@ def _judge(cfg, ops, per_op, sync0, sent_later):
                     # reduced judgement: format (above), interval range and consecutive sequence numbers
                     for e in got:
                         fld = e[3][0] | e[3][1] << 8
+                        if forced and e[3][2] == 0xff:
+                            continue       # a heartbeat on demand: sequence value 255, the counter does not move
                         if not (MIN_PERIOD // 10 <= fld <= MAX_PERIOD // 10):
                             return k, 'interval-field:op %d: device %d states %d (x10 ms), outside 1 s..655.32 s' % (k, i, fld)
                         if e[3][2] != d.seq:
